@@ -90,6 +90,27 @@ def setup_case(ctx, case):
     for i in range(n - 1):
         if A.verify_lock_key(Ys[i], key):
             ctx.violation({'clause': 'the final key opens only the last lock'}, f'seed {sname} n={n} hop {i}')
+    # the empty seed makes the library draw a random one: the result must still be one consistent chain
+    # (the values of a single result are related to each other, whatever was drawn; two calls, two chains)
+    if sname == 's0':
+        for call in (1, 2):
+            cnt += 1
+            env.Rand.reset(b'c18-empty-seed-%d' % call)
+            r0 = T.setup_amhl(b'', list(pk))
+            ctx.ran()
+            ys0 = [r0[pk[i]][3] for i in range(n)]
+            acc = None
+            for i in range(n):
+                pt = refed.scalarmult_base_noclamp(ys0[i])
+                acc = pt if acc is None else refed.add_enc(acc, pt)
+                if r0[pk[i]][2] != acc:
+                    ctx.violation({'clause': 'hop i tweak point = sum of the points of secrets 0..i', 'seed': 'empty'},
+                                  f'empty seed n={n} hop {i}')
+            k0 = sum(int.from_bytes(y, 'little') & ((1 << 255) - 1) for y in ys0) % L
+            if int.from_bytes(r0['key'], 'little') % L != k0:
+                ctx.violation({'clause': 'final key = sum of all secrets', 'seed': 'empty'}, f'empty seed n={n} (call {call})')
+            if not A.verify_lock_key(r0[pk[n - 1]][2], r0['key']):
+                ctx.violation({'clause': 'the final key opens the last lock', 'seed': 'empty'}, f'empty seed n={n} (call {call})')
     ctx.evaluations += cnt - 1
 
 
